@@ -219,68 +219,59 @@ def cutBuf (mss : Nat) : Nat → List UInt8 → List (List UInt8)
       let k := if mss = 0 then 1 else mss
       b.take k :: cutBuf mss f (b.drop k)
 
-/-- the segmentation loop of `write_some_impl`: send segments until the window is full.
-    Returns the state, effects and the number of bytes accepted. -/
-def NetSt.tcpSendSegs (n : NetSt) (now : Int) (name : String) (hops : List String) :
-    List (List UInt8) → Nat → NetSt × List NEff × Nat × Bool
-  | [], acc => (n, [], acc, false)
-  | seg :: rest, acc =>
-    match n.tcp? name with
-    | none => (n, [], acc, true)
-    | some s =>
-      let p : Pkt := { id := s.nextOut, ty := .payload, len := seg.length, ovh := 40, hops := hops,
-                       src := s.bound.toString, payload := seg, hasDrop := true, dropFwd := s.fwd }
-      let n := n.setTcp name { s with nextOut := s.nextOut + 1 }
-      let (n, e) := n.tcpSendPacket now name p
-      let acc := acc + seg.length
-      match n.tcp? name with
-      | none => (n, e, acc, true)
-      | some s =>
-        if s.inFlight + s.mss > s.cwnd then (n, e, acc, true)     -- the congestion window is full
-        else
-          let (n, e2, acc, full) := n.tcpSendSegs now name hops rest acc
-          (n, e ++ e2, acc, full)
-
-/-- `write_some_impl(bufs, ec)` -/
-def NetSt.tcpWriteSome (n : NetSt) (now : Int) (name : String) (bufs : List (List UInt8)) :
-    NetSt × List NEff × Except Ec Nat :=
+/-- `write_some_impl(bufs, ec)`, the checks before the segmentation loop: the route to the
+    peer and the segments (each buffer is cut separately: segments never span two buffers) -/
+def NetSt.tcpWritePrep (n : NetSt) (name : String) (bufs : List (List UInt8)) :
+    Except Ec (List String × List (List UInt8)) :=
   match n.tcp? name with
-  | none => (n, [], .error .other)
+  | none => .error .other
   | some s =>
-    if !s.isOpen then (n, [], .error .badDesc)
+    if !s.isOpen then .error .badDesc
     else match s.chan.bind n.chan? with
-      | none => (n, [], .error .notConn)
+      | none => .error .notConn
       | some ch =>
-        if s.connectH.isSome then (n, [], .error .wouldBlock)
+        if s.connectH.isSome then .error .wouldBlock
         else
           let hops := ch.hops (ch.remoteIdx s.bound)
-          if hops.isEmpty then (n, [], .error .notConn)
-          else if s.inFlight + s.mss > s.cwnd then (n, [], .error .wouldBlock)
-          else
-            -- each buffer is cut separately: segments never span two buffers
-            let segs := (bufs.map (fun b => cutBuf s.mss (b.length + 1) b)).flatten
-            let (n, e, acc, _) := n.tcpSendSegs now name hops segs 0
-            (n, e, .ok acc)
+          if hops.isEmpty then .error .notConn
+          else if s.inFlight + s.mss > s.cwnd then .error .wouldBlock
+          else .ok (hops, (bufs.map (fun b => cutBuf s.mss (b.length + 1) b)).flatten)
 
-/-- `async_write_some_impl(bufs, handler)` -/
-def NetSt.tcpAsyncWriteImpl (n : NetSt) (now : Int) (name : String) (op : WriteOp) : NetSt × List NEff :=
-  let (n, e, r) := n.tcpWriteSome now name op.bufs
+/-- one iteration of the segmentation loop: build the segment and `send_packet` it -/
+def NetSt.tcpSendSeg (n : NetSt) (now : Int) (name : String) (hops : List String) (seg : List UInt8) :
+    NetSt × List NEff :=
   match n.tcp? name with
-  | none => (n, e)
+  | none => (n, [])
+  | some s =>
+    let p : Pkt := { id := s.nextOut, ty := .payload, len := seg.length, ovh := 40, hops := hops,
+                     src := s.bound.toString, payload := seg, hasDrop := true, dropFwd := s.fwd }
+    (n.setTcp name { s with nextOut := s.nextOut + 1 }).tcpSendPacket now name p
+
+/-- the loop's exit test `m_bytes_in_flight + m_mss > m_cwnd`, evaluated after the packet was
+    forwarded (and possibly handed back by the first hop) -/
+def NetSt.tcpWindowFull (n : NetSt) (name : String) : Bool :=
+  match n.tcp? name with
+  | none => true
+  | some s => decide (s.inFlight + s.mss > s.cwnd)
+
+/-- `async_write_some_impl`: what happens with the handler once `write_some_impl` returned -/
+def NetSt.tcpWriteFinish (n : NetSt) (name : String) (op : WriteOp) (r : Except Ec Nat) : NetSt × List NEff :=
+  match n.tcp? name with
+  | none => (n, [])
   | some s =>
     match r with
-    | .error .wouldBlock => (n.setTcp name { s with sendH := some op }, e)
-    | .error ec => (n.setTcp name { s with sendH := none }, e ++ [.post { h := op.h, ec := ec, extra := writeExtra 0 op }])
-    | .ok k => (n.setTcp name { s with sendH := none }, e ++ [.post { h := op.h, ec := .ok, extra := writeExtra k op }])
+    | .error .wouldBlock => (n.setTcp name { s with sendH := some op }, [])
+    | .error ec => (n.setTcp name { s with sendH := none }, [.post { h := op.h, ec := ec, extra := writeExtra 0 op }])
+    | .ok k => (n.setTcp name { s with sendH := none }, [.post { h := op.h, ec := .ok, extra := writeExtra k op }])
 
-/-- `async_write_some(bufs, handler)` -/
-def NetSt.tcpAsyncWrite (n : NetSt) (now : Int) (name : String) (op : WriteOp) : NetSt × List NEff :=
+/-- `async_write_some(bufs, handler)`: abort the previous write, then run the loop (effect) -/
+def NetSt.tcpAsyncWrite (n : NetSt) (name : String) (op : WriteOp) : NetSt × List NEff :=
   match n.tcp? name with
   | none => (n, [])
   | some s =>
     let (s, e0) := s.abortSend
-    let (n, e1) := (n.setTcp name s).tcpAsyncWriteImpl now name op
-    (n, e0 ++ e1)
+    -- the write is parked in the slot; `.tcpWrite` takes it out again and runs it
+    (n.setTcp name { s with sendH := some op }, e0 ++ [.tcpWrite name op.h])
 
 /-- copy queued payload into `cap` bytes of buffer space: whole packets while they fit, a
     partial packet keeps its remainder at the head of the queue; stops before an error packet -/
@@ -354,31 +345,31 @@ def TcpSock.maybeWakeupReader (tp : TParams) (s : TcpSock) : TcpSock × List NEf
     | some op => ({ s with recvH := none }).asyncReadImpl op
     | none => (s, [])
 
-/-- `maybe_wakeup_writer()` -/
-def NetSt.tcpMaybeWakeupWriter (n : NetSt) (now : Int) (name : String) : NetSt × List NEff :=
+/-- one iteration of the ACK path's retransmission loop: `some` when the head of the list
+    fits the window and was sent -/
+def NetSt.tcpResendOne (n : NetSt) (now : Int) (name : String) : Option (NetSt × List NEff) :=
   match n.tcp? name with
-  | none => (n, [])
+  | none => none
   | some s =>
-    match s.sendH with
-    | none => (n, [])
-    | some op => (n.setTcp name { s with sendH := none }).tcpAsyncWriteImpl now name op
+    match s.resend with
+    | [] => none
+    | p :: rest =>
+      if s.chan.isNone then none
+      else if s.inFlight + p.payload.length ≤ s.cwnd then
+        some ((n.setTcp name { s with resend := rest }).tcpSendPacket now name p)
+      else none
 
-/-- the resend loop of the ACK path -/
-def NetSt.tcpResendLoop (n : NetSt) (now : Int) (name : String) : Nat → NetSt × List NEff
-  | 0 => (n, [])
-  | f + 1 =>
-    match n.tcp? name with
-    | none => (n, [])
-    | some s =>
-      match s.resend with
-      | [] => (n, [])
-      | p :: rest =>
-        if s.inFlight + p.payload.length ≤ s.cwnd then
-          let n := n.setTcp name { s with resend := rest }
-          let (n, e1) := n.tcpSendPacket now name p
-          let (n, e2) := n.tcpResendLoop now name f
-          (n, e1 ++ e2)
-        else (n, [])
+/-- the rest of the ACK path after the retransmission loop: grow the window, decide whether
+    the writer is to be woken -/
+def NetSt.tcpAckPost (tp : TParams) (n : NetSt) (name : String) (wasBlocked : Bool) (acked : Nat) : NetSt × Bool :=
+  match n.tcp? name with
+  | none => (n, false)
+  | some s =>
+    let s := { s with cwnd := s.cwnd + s.mss * acked / s.cwnd }
+    let writeable := decide (s.inFlight + (s.mss : Int) ≤ (s.cwnd : Int))
+    -- pinned tree: `!was_writeable && is_writeable` with was_writeable = "was blocked"
+    let wake := if tp.wakeWriterFixed then wasBlocked && writeable else !wasBlocked && writeable
+    (n.setTcp name s, wake)
 
 /-- release the reorder buffer into the incoming queue while the next number is present -/
 def drainReorder : Nat → Nat → List (Nat × Pkt) → List Pkt → Nat × List (Nat × Pkt) × List Pkt
@@ -389,7 +380,7 @@ def drainReorder : Nat → Nat → List (Nat × Pkt) → List Pkt → Nat × Lis
     | some p => drainReorder f (nx + 1) (ro.filter (fun e => e.1 != nx)) (q ++ [p])
 
 /-- `tcp::socket::incoming_packet(p)` (not an acceptor) -/
-def NetSt.tcpIncoming (tp : TParams) (n : NetSt) (now : Int) (name : String) (p : Pkt) : NetSt × List NEff :=
+def NetSt.tcpIncoming (tp : TParams) (n : NetSt) (_now : Int) (name : String) (p : Pkt) : NetSt × List NEff :=
   match n.tcp? name with
   | none => (n, [])
   | some s =>
@@ -400,27 +391,12 @@ def NetSt.tcpIncoming (tp : TParams) (n : NetSt) (now : Int) (name : String) (p 
       let wasBlocked := decide (s.inFlight + s.mss > s.cwnd)
       let acked : Nat := ((s.outstanding.lookup p.id).getD 0)
       let s := { s with outstanding := s.outstanding.filter (fun e => e.1 != p.id), inFlight := s.inFlight - acked }
-      let n := n.setTcp name s
-      let (n, e1) := n.tcpResendLoop now name (s.resend.length + 1)
-      match n.tcp? name with
-      | none => (n, e1)
-      | some s =>
-        let s := { s with cwnd := s.cwnd + s.mss * acked / s.cwnd }
-        let n := n.setTcp name s
-        let writeable := decide (s.inFlight + s.mss ≤ s.cwnd)
-        -- pinned tree: `!was_writeable && is_writeable` with was_writeable = "was blocked"
-        let wake := if tp.wakeWriterFixed then wasBlocked && writeable else !wasBlocked && writeable
-        if wake then
-          let (n, e2) := n.tcpMaybeWakeupWriter now name
-          (n, e1 ++ e2)
-        else (n, e1)
+      (n.setTcp name s, [.tcpResend name, .tcpAckPost name wasBlocked acked])
     | .synack =>
       match s.connectH with
       | none => (n, [])
       | some h =>
-        let n := n.setTcp name { s with connectH := none }
-        let (n, e2) := n.tcpMaybeWakeupWriter now name
-        (n, [NEff.post { h := h, ec := .ok }] ++ e2)
+        (n.setTcp name { s with connectH := none }, [NEff.post { h := h, ec := .ok }, .tcpWake name])
     | _ =>
       -- error or payload: acknowledge, then deliver in sequence order
       match s.chan.bind n.chan? with
@@ -568,6 +544,11 @@ def NetSt.accIncoming (n : NetSt) (now : Int) (name : String) (p : Pkt) : NetSt 
     match s.acc with
     | some a => (n.setTcp name { s with acc := some { a with conns := a.conns ++ [c] } }).accCheckQueue now name
     | none => (n, [])
+  | some s, .err, _ =>
+    -- "something is not wired up correctly": an error packet addressed to the acceptor itself
+    -- (a connector that gave up and closed before being accepted) aborts the pending accept
+    let (s, e) := s.abortAccept
+    (n.setTcp name s, e)
   | _, _, _ => (n, [])
 
 /-- the three `async_accept` overloads -/
